@@ -300,6 +300,50 @@ def unwrap_obs():
         ob = Ob(name, src, [('buf', ety, False)], rt, post, {'kind': 'unwrap', 'sum': 'error-union', 'side': side},
                 pre=None)
         ob.handles_abort = True; obs.append(ob)
+    # zero-sized requests: a payload-less variant, `nil` of an optional / nullable pointer, the `void` side of an error union.
+    # nothing is read from the payload, but the tag must still be checked
+    for (vn, pay, _), d in zip(E1.variants, discs):
+        if pay is not None:
+            continue
+        name = 'unwz_E1_%s' % vn
+        src = '%s :: (p: ^E1) { x := #unwrap(p^, E1.%s); }' % (name, vn)
+
+        def zpost(ctx, xs, d=d):
+            b = ctx.bufs[0]
+            tag = ctx.init_bytes(b, tag_off, 1)
+            goals = [('no access outside the enum', ctx.accesses_inside()), ('unchanged', frame(ctx, b, []))]
+            return goals + ([('abort only when the variant differs', tag != d)] if ctx.status == 'abort' else [('returns only for the requested variant', tag == d)])
+        ob = Ob(name, src, [('buf', E1, False)], None, zpost, {'kind': 'unwrap', 'sum': 'enum', 'variant': vn, 'zero_sized': True})
+        ob.handles_abort = True; obs.append(ob)
+    for oty, nm in ((Opt(S('i32')), 'oi32'), (Opt(S('i64')), 'oi64')):
+        name = 'unwz_' + nm
+        src = '%s :: (p: ^%s) { x := #unwrap(p^, nil); }' % (name, oty.src())
+
+        def npost(ctx, xs, oty=oty):
+            b = ctx.bufs[0]
+            tag = ctx.init_bytes(b, oty.tag_offset(), 1)
+            goals = [('no access outside the optional', ctx.accesses_inside()), ('unchanged', frame(ctx, b, []))]
+            return goals + ([('abort only when a value is present', tag != 0)] if ctx.status == 'abort' else [('returns only when the optional is nil', tag == 0)])
+        ob = Ob(name, src, [('buf', oty, False)], None, npost, {'kind': 'unwrap', 'sum': 'optional', 'payload': 'nil', 'zero_sized': True})
+        ob.handles_abort = True; obs.append(ob)
+    name = 'unwz_eu_void'
+    src = ('unwz_eu_mk :: (iserr: bool) -> E2!void { if iserr { return E2.Y; } }\n'
+           'unwz_eu_void :: (iserr: bool) { e := unwz_eu_mk(iserr); x := #unwrap(e, void); }')
+
+    def vpost(ctx, xs):
+        return [('abort only when the error side is active', xs[0] == 1)] if ctx.status == 'abort' else [('returns only for the void side', xs[0] == 0)]
+    ob = Ob(name, src, [('scalar', 'bool')], None, vpost, {'kind': 'unwrap', 'sum': 'error-union', 'side': 'void', 'zero_sized': True})
+    ob.handles_abort = True; obs.append(ob)
+    name = 'unwz_np'
+    src = ('unwz_np_in :: (p: ?^i32) { x := #unwrap(p, nil); }\n'
+           'unwz_np :: (q: ^i32, isnil: bool) { o : ?^i32 = q; if isnil { o = nil; } unwz_np_in(o); }')
+
+    def znppost(ctx, xs):
+        b = ctx.bufs[0]
+        goals = [('unchanged', frame(ctx, b, []))]
+        return goals + ([('abort only when the pointer is not nil', xs[0] == 0)] if ctx.status == 'abort' else [('returns only for a nil pointer', xs[0] == 1)])
+    ob = Ob(name, src, [('buf', S('i32'), False), ('scalar', 'bool')], None, znppost, {'kind': 'unwrap', 'sum': 'nullable-pointer', 'zero_sized': True})
+    ob.handles_abort = True; obs.append(ob)
     # nullable pointer: #unwrap(p)^ with p symbolic (null or pointing at the buffer)
     name = 'unw_np'
     src = ('unw_np_in :: (p: ?^i32) -> i32 { #unwrap(p)^ }\n'
